@@ -600,6 +600,48 @@ func genTwccBytes(r *Rng) []byte {
 	return append(hdr, body...)
 }
 
+// TWCC programs whose status counter comes close to (or crosses) 65535: run lengths that reach or overshoot the
+// count, vector chunks that overshoot it, followed by more chunks that would only be scanned if the counter wrapped.
+func genTwccWrap(r *Rng) []byte {
+	count := 65535 - r.Pick(0, 0, 1, 2, 7, 13, 14, 20)
+	body := make([]byte, 16)
+	binary.BigEndian.PutUint32(body[0:], uint32(r.U64()))
+	binary.BigEndian.PutUint32(body[4:], uint32(r.U64()))
+	binary.BigEndian.PutUint16(body[8:], uint16(r.U64()))
+	binary.BigEndian.PutUint16(body[10:], uint16(count))
+	binary.BigEndian.PutUint32(body[12:], uint32(r.U64()))
+	processed := 0
+	for processed+8191 < count-r.Intn(3)*8191 {
+		body = binary.BigEndian.AppendUint16(body, uint16(r.Pick(0, 0, 0, 3))<<13|8191)
+		processed += 8191
+	}
+	extra := 1 + r.Intn(6)
+	if r.Chance(1, 12) {
+		extra = 200 + r.Intn(380) // long tail: only scanned (and only expensive) if the counter wrapped
+	}
+	for n := extra; n > 0; n-- {
+		var w uint16
+		switch r.Intn(4) {
+		case 0:
+			w = uint16(r.Intn(4))<<13 | 8191
+		case 1:
+			w = uint16(r.Intn(4))<<13 | uint16(r.Pick(count-processed-1, count-processed, count-processed+1, 1, 14)&0x1FFF)
+		case 2:
+			w = 0x8000 | uint16(r.U64())&0x3FFF
+		default:
+			w = 0xC000 | uint16(r.U64())&0x3FFF
+		}
+		body = binary.BigEndian.AppendUint16(body, w)
+	}
+	body = append(body, r.Bytes(r.Len(12, 0, 1, 2))...)
+	for len(body)%4 != 0 {
+		body = append(body, 0)
+	}
+	hdr := []byte{0x80 | 15, 205, 0, 0}
+	binary.BigEndian.PutUint16(hdr[2:], uint16((len(body)+4)/4-1))
+	return append(hdr, body...)
+}
+
 func genCcfbBytes(r *Rng) []byte {
 	body := make([]byte, 4)
 	binary.BigEndian.PutUint32(body, uint32(r.U64()))
@@ -762,6 +804,9 @@ func genDecodeInput(r *Rng, kind string) []byte {
 		switch kind {
 		case "TWCC":
 			b := genTwccBytes(r)
+			if r.Chance(1, 3) {
+				b = genTwccWrap(r)
+			}
 			if r.Chance(1, 4) {
 				b = mutate(r, b)
 			}
@@ -804,7 +849,9 @@ func genDatagram(r *Rng) []byte {
 		case i == bad:
 			f = genDecodeInput(r, k)
 		case r.Chance(1, 6):
-			switch r.Intn(4) {
+			switch r.Intn(5) {
+			case 4:
+				f = genTwccWrap(r)
 			case 0:
 				f = genTwccBytes(r)
 			case 1:
